@@ -87,6 +87,12 @@ reg('C12', 'metamorphic comparison of two option sets through an independent out
     'normalised token streams must be equal (white space, comment tokens and the self-closing slash are the only permitted differences); under format-on/no formatSkip/xhtml-xml style every line must carry exactly baseIndent + indent × open elements.',
     'Text is compared with white space removed (white space between adjacent text nodes is inter-node white space); comment templates are in comment syntax; one known finding (multi-line text before children) is listed in KNOWN_FINDINGS.txt.')
 
+reg('C15', 'exhaustive operator-skeleton enumeration × 3 syntaxes + Hypothesis scripts; differential against a reference line renderer and tree-from-indentation vs tree-from-HTML',
+    'Every operator skeleton with ≤ 3 (quick) / ≤ 4 (thorough) elements in haml, pug and slim, and Hypothesis scripts (ids, classes, valued/empty/boolean attributes, single- and multi-line text, self-closing marks, '
+    'repeaters, groups, depth ≤ 8) × indent/newline/baseIndent variants are compared by exact string equality with the reference rendering of the denoted tree; additionally the name tree recovered from the '
+    'indentation must equal the tree an independent lexer recovers from the HTML output of the same abbreviation.',
+    'ids are written before classes; text-only items are excluded as in the quantifier; attribute values are single-line.')
+
 NOT_APPLICABLE = [
 ]
 
